@@ -3,9 +3,11 @@ mod chain;
 mod ix;
 mod kinds;
 mod mon;
+mod mon_risk;
 mod num;
 mod refm;
 mod report;
+mod scen;
 mod state;
 mod storm;
 mod tap;
@@ -71,6 +73,80 @@ async fn run_storm(a: &Args, m: &mut mon::Mon) {
     }
 }
 
+/// Directed scenarios (leveraged borrower -> price shock -> liquidation / receivership /
+/// bankruptcy) interleaved with storm steps so that the surrounding state stays diverse.
+async fn run_scen(a: &Args, m: &mut mon::Mon) {
+    use rand::Rng;
+    let t0 = Instant::now();
+    let mut world_no = 0u64;
+    while t0.elapsed() < a.budget {
+        let seed = subseed(a, world_no);
+        let mut r = storm::rng(seed);
+        let cfg = storm::StormCfg { n_banks: r.gen_range(3..=5), n_users: 2, program_fees: r.gen_bool(0.6), magnitude: 1, with_staked: false };
+        let (mut w, mut s) = storm::Storm::build(seed, cfg).await;
+        let g = s.g;
+        let lq = s.liquidator;
+        let rounds = if a.tier == "thorough" { 40 } else { 12 };
+        for _ in 0..rounds {
+            if t0.elapsed() >= a.budget {
+                break;
+            }
+            for _ in 0..r.gen_range(0..30) {
+                s.step(&mut w, m).await;
+            }
+            w.refresh_oracles();
+            let nb = w.banks.len();
+            let cands: Vec<usize> = (0..nb).filter(|b| scen::usable_collateral(&w, *b)).collect();
+            if cands.is_empty() {
+                break;
+            }
+            let ca = storm::pick(&mut r, &cands);
+            let dbs: Vec<usize> = (0..nb).filter(|b| *b != ca && w.bank(*b).config.operational_state == marginfi_type_crate::types::BankOperationalState::Operational).collect();
+            if dbs.is_empty() {
+                break;
+            }
+            let db = storm::pick(&mut r, &dbs);
+            let frac = storm::pick(&mut r, &[1.0f64, 0.999, 0.95, 0.7, 0.3]);
+            let lev = match scen::setup_leveraged(&mut w, m, &mut r, g, lq, ca, db, frac).await {
+                Some(l) => l,
+                None => {
+                    m.r.count("scen.setup_failed");
+                    continue;
+                }
+            };
+            match a.prop.as_str() {
+                "C05" => scen::liquidation(&mut w, m, &mut r, &lev, lq).await,
+                "C07" => scen::bankruptcy(&mut w, m, &mut r, &lev, g).await,
+                "C10" => {
+                    let ru = w.accts[lq].user;
+                    scen::receivership(&mut w, m, &mut r, &lev, ru).await
+                }
+                _ => {
+                    // C04: also locate the withdraw boundary of the collateral
+                    let auth = w.auth_of(lev.acct);
+                    let (acct, ca) = (lev.acct, lev.ca);
+                    let ta = w.ta_of(acct, ca);
+                    let ak = { use solana_sdk::signature::Signer; auth.pubkey() };
+                    let hi = s.position(&w, acct, ca).0;
+                    let mx = scen::bisect_max(&mut w, m, &[&auth], hi, |w, x| vec![w.ix_withdraw(acct, ca, ak, ta, x, None)]).await;
+                    if let Some(x) = mx {
+                        m.r.count("scen.withdraw_boundary_found");
+                        let i = w.ix_withdraw(acct, ca, ak, ta, x, None);
+                        let _ = w.exec(m, &[i], &[&auth]).await;
+                    }
+                    match r.gen_range(0..3) {
+                        0 => scen::liquidation(&mut w, m, &mut r, &lev, lq).await,
+                        _ => {}
+                    }
+                }
+            }
+        }
+        m.r.add("storm.steps", s.steps);
+        m.r.add("storm.worlds", 1);
+        world_no += 1;
+    }
+}
+
 #[tokio::main(flavor = "current_thread")]
 async fn main() {
     if std::env::var("RUST_LOG").is_err() {
@@ -93,12 +169,18 @@ async fn main() {
         "C06" => vec!["C06"],
         "C16" => vec!["C16"],
         "C17" => vec!["C17"],
-        "ALL" => vec!["C01", "C02", "C03", "C06", "C16", "C17"],
+        "C04" => vec!["C04"],
+        "C05" => vec!["C05"],
+        "C07" => vec!["C07"],
+        "C10" => vec!["C10"],
+        "C11" => vec!["C11"],
+        "ALL" => vec!["C01", "C02", "C03", "C06", "C16", "C17", "C04", "C05", "C07", "C10", "C11"],
         _ => vec![],
     };
     let mut m = mon::Mon::new(&a.prop, &on);
     match a.prop.as_str() {
-        "C01" | "C02" | "C03" | "C06" | "C16" | "C17" | "ALL" => run_storm(&a, &mut m).await,
+        "C01" | "C02" | "C03" | "C06" | "C16" | "C17" | "ALL" | "C11" => run_storm(&a, &mut m).await,
+        "C04" | "C05" | "C07" | "C10" => run_scen(&a, &mut m).await,
         p => {
             eprintln!("unknown property {}", p);
             std::process::exit(3);
